@@ -5,7 +5,7 @@ from common import *
 PID = "C01"
 PROPS = "props/C01.v"
 GOTAB = ["qr.go"]
-GOFILES = ["qr.go"]
+GOFILES = ["qr.go", "all.go"]
 EXTRACT = ["base", "qr"]
 HANDLERS = ["h_qr.ml"]
 
@@ -419,3 +419,10 @@ def coq_case(line, impl_out):
     except (ValueError, IndexError):
         pass
     return "KSkip"
+
+
+def extra(rep, impl_exe, model_exe, rng, tier):
+    # returned symbols stay what they were; results do not depend on what was encoded before
+    import held
+    v = held.held_phase(rep, impl_exe, rng, ["qr 0 0", "qr 1 1", "qr 2 2", "qr 3 3"], n=8 if tier == "quick" else 60)
+    return v + held.qr_adversarial_phase(rep, impl_exe, rng, tier, held.run_fresh_each)
